@@ -94,10 +94,15 @@ class Asty:
 
     @staticmethod
     def _get_pos(node):
-        return {
+        pos = {
             attr: getattr(node, hy_attr, getattr(node, attr, None))
             for attr, hy_attr in Asty.POS_ATTRS.items()
         }
+        if pos["lineno"] is None or pos["col_offset"] is None:
+            # An empty `Result`, as for `(do)`, has no position. Python
+            # requires one, so fall back to 1 as for positionless models.
+            pos = dict.fromkeys(pos, 1)
+        return pos
 
     @staticmethod
     def _replace_pos(node, pos):
@@ -687,7 +692,7 @@ class HyASTCompiler:
             value
             + ret
             + (asty.Interpolation if fcomponent.is_tstring else asty.FormattedValue)(
-                fcomponent, value=value.expr, conversion=conversion, format_spec=spec,
+                fcomponent, value=value.force_expr, conversion=conversion, format_spec=spec,
                 **(dict(str=fcomponent.expression) if fcomponent.is_tstring else {}),
             )
         )
